@@ -231,6 +231,12 @@ def pool(size):
         vals = sorted({0, 1, 2, (1 << w) - 1, (1 << w) - 2, 1 << (w - 1)} & set(range(1 << w)) if w <= 8 else {0, 1, 2, (1 << w) - 1, (1 << w) - 2, 1 << (w - 1), (1 << 61) - 1, 1 << 61})
         for v in vals:
             add(f"BVV:{v}#{w}", f"bvv{w}", lambda v=v, w=w: claripy.BVV(v, w), leaf_expect("BV", "BVV", (v, w), w, ()))
+        # integers whose serialisation could alias the one-byte markers of None / True / False, and the empty SI
+        if w >= 8:
+            for v in (15, 31, 46, 0x0F0F):
+                if v < (1 << w):
+                    add(f"BVV:{v}#{w}", f"bvv{w}", lambda v=v, w=w: claripy.BVV(v, w), leaf_expect("BV", "BVV", (v, w), w, ()))
+        add(f"ESI#{w}", f"bvv{w}", lambda w=w: claripy.ESI(w), ("BV", "BVV", (prim_sig(None), prim_sig(w)), w, ()))
         add(f"BVV:-1#{w}", f"bvv{w}", lambda w=w: claripy.BVV(-1, w), leaf_expect("BV", "BVV", ((1 << w) - 1, w), w, ()))
         add(f"BVV:-2#{w}", f"bvv{w}", lambda w=w: claripy.BVV(-2, w), leaf_expect("BV", "BVV", ((1 << w) - 2, w), w, ()))
         # strided-interval annotated variables (the SI() constructor) over colliding field values
